@@ -19,7 +19,7 @@ VERIF = Path(__file__).resolve().parent.parent
 
 ISAS = {
     "arm": dict(use_objdump=True, triple="armv7", mattr="", mc=[], nop=bytes.fromhex("00f020e3"), sentinel=bytes.fromhex("a5c0a0e3")),
-    "thumb": dict(use_objdump=True, triple="thumbv7em", mattr="", mc=[], nop=bytes.fromhex("c046"), sentinel=bytes.fromhex("5abe")),
+    "thumb": dict(use_objdump=True, inst_n=True, triple="thumbv7em", mattr="", mc=[], nop=bytes.fromhex("c046"), sentinel=bytes.fromhex("5abe")),
     "x86_64": dict(use_objdump=True, objdump=["--x86-asm-syntax=intel"], triple="x86_64", mattr="", mc=["--output-asm-variant=1"], nop=b"\x90", sentinel=bytes.fromhex("b85a5a5a5a")),
     "msp430": dict(triple="msp430", mattr="", mc=[], nop=bytes.fromhex("0343"), sentinel=bytes.fromhex("3f405a5a")),
     "avr": dict(triple="avr", mattr="+avr6", mc=[], nop=b"\x00\x00", sentinel=bytes.fromhex("f5ea")),
@@ -176,11 +176,15 @@ def disassemble_objdump(isa, cfg, byte_strings, workdir):
     instance cannot desynchronise its successors), followed by nop padding; the instance's text is the
     first instruction of its symbol if it has exactly the instance's length."""
     nop = cfg["nop"]
-    lines = [".text"]
+    lines = [".text"] + ([".thumb"] if cfg.get("inst_n") else [])
     for k, bs in enumerate(byte_strings):
         blob = bs + nop * (PAD // len(nop))
         lines.append(f"I{k}:")
-        lines.append(".byte " + ",".join(str(x) for x in blob))
+        if cfg.get("inst_n") and len(blob) % 2 == 0:
+            # thumb: `.byte` would be marked as data ($d) and not disassembled
+            lines.append(".inst.n " + ",".join("0x%04x" % (blob[j] | blob[j + 1] << 8) for j in range(0, len(blob), 2)))
+        else:
+            lines.append(".byte " + ",".join(str(x) for x in blob))
     src, obj = workdir / f"{isa}.s", workdir / f"{isa}.o"
     src.write_text("\n".join(lines) + "\n")
     mattr = ["-mattr=" + cfg["mattr"]] if cfg["mattr"] else []
@@ -291,6 +295,15 @@ FORM_ALIAS = {
     "x86_64": {}, "m68k": {"movel": "moveal", "movew": "moveaw"},
 }
 
+X86_NUM = {}
+for _k, _names in enumerate([("al", "ax", "eax", "rax"), ("cl", "cx", "ecx", "rcx"), ("dl", "dx", "edx", "rdx"), ("bl", "bx", "ebx", "rbx"),
+                             ("spl", "sp", "esp", "rsp"), ("bpl", "bp", "ebp", "rbp"), ("sil", "si", "esi", "rsi"), ("dil", "di", "edi", "rdi")]):
+    for _n in _names:
+        X86_NUM[_n] = _k
+for _k in range(8, 16):
+    for _n in (f"r{_k}b", f"r{_k}w", f"r{_k}d", f"r{_k}"):
+        X86_NUM[_n] = _k
+
 TOK = re.compile(r"[A-Za-z_.][\w.:]*|[-+]?0x[0-9a-fA-F]+|[-+]?\d+")
 
 
@@ -384,6 +397,12 @@ def compare(isa, ptext, ltext, has_label, vocab=frozenset()):
             return "mismatch_register", f"{pr} vs {lr}"
         return "unknown_operand_count", ""
     if pr != lr:
+        if isa == "x86_64":
+            hi = {"ah": "spl", "ch": "bpl", "dh": "sil", "bh": "dil"}
+            if len(pr) == len(lr) and all(a == b or hi.get(a[1]) == b[1] for a, b in zip(pr, lr)):
+                return "mismatch_high_byte_register_with_rex", f"{pr} vs {lr}"
+            if len(pr) == len(lr) and all(a == b or X86_NUM.get(a[1]) == X86_NUM.get(b[1], -1) for a, b in zip(pr, lr)):
+                return "unknown_register_width", f"{pr} vs {lr}"      # operand class too permissive: C10
         if sorted(pr) == sorted(lr):
             return "mismatch_register_order", f"{pr} vs {lr}"
         return "mismatch_register", f"{pr} vs {lr}"
@@ -448,6 +467,8 @@ def check(ctx, only=None):
                 ctx.count(f"{isa}_{verdict}")
                 if verdict.startswith("mismatch"):
                     kind = verdict[len("mismatch_"):]
+                    if kind == "high_byte_register_with_rex":
+                        cname = "*"
                     ctx.fail(f"{isa}:{cname}:{kind}", f"{isa} '{text}' encodes {bs.hex()}, which llvm reads as '{lt}' ({detail})",
                              {"isa": isa, "cls": cname, "printed": text, "bytes": bs.hex()}, llvm=lt)
                 elif verdict.startswith("unknown"):
